@@ -108,8 +108,15 @@ pub fn conv_tok(t: &SymbolicBDDToken) -> Option<Tok> {
         S::GFP => Tok::Gfp,
         S::Hash => Tok::Hash,
         S::Eof => return None,
+        // a token kind this harness does not know (the enum is not #[non_exhaustive], but a
+        // change may add one): mapped to a sentinel that makes callers skip the token-level
+        // comparison and rely on the parse-level one
+        #[allow(unreachable_patterns)]
+        other => Tok::Ref(format!("{UNKNOWN_TOKEN_KIND}{other:?}")),
     })
 }
+
+pub const UNKNOWN_TOKEN_KIND: &str = "\u{0}unknown token kind ";
 
 #[derive(Debug)]
 pub enum ImplParse {
